@@ -184,6 +184,10 @@ func HarnessC06(a []int) {
 	d1, ok := Produce(name)
 	verifAssert("C06.produce", ok)
 	data := nondetBytes(L)
+	if len(a) > 3 && a[3] >= 0 && L == 3 {
+		// case split of the two-octet float by its exponent field
+		data[1] = data[1]&0x87 | byte(a[3])<<3
+	}
 	if d1.Unpack(data) != nil {
 		verifCover("C06.rejected")
 		return
